@@ -7,4 +7,9 @@ open BsVerif.Tracer
 #print axioms C09_prompt_is_quiescent
 #print axioms C09_group_stop_coverage
 #print axioms C09_second_round_noop
+#print axioms C09_first_round_complete
+#print axioms inv_run
+#print axioms inv_session
+#print axioms C09_all_marked_stopped
+#print axioms C09_group_stop_covers
 #print axioms C09_rewind_exact
